@@ -194,8 +194,10 @@ class RegionBoundingBox:
         ymin = self.iymin
         ymax = self.iymax
 
-        if xmin >= shape[1] or ymin >= shape[0] or xmax <= 0 or ymax <= 0:
+        if (xmin >= shape[1] or ymin >= shape[0] or xmax <= 0 or ymax <= 0
+                or xmax <= xmin or ymax <= ymin or min(shape) <= 0):
             # no overlap of the bounding box with the input shape
+            # (this includes empty bounding boxes and zero-sized shapes)
             return None, None
 
         slices_large = (slice(max(ymin, 0), min(ymax, shape[0])),
